@@ -151,8 +151,6 @@ class MultiTaskBCD(BaseSolver):
                                 print("----------Linalg error")
 
                 if epoch > 0 and epoch % 10 == 0:
-                    p_obj = datafit.value(Y, W[ws, :], XW) + penalty.value(W)
-
                     if is_sparse:
                         grad_ws = construct_grad_sparse(
                             X.data, X.indptr, X.indices, Y, XW, datafit, ws)
@@ -168,6 +166,8 @@ class MultiTaskBCD(BaseSolver):
 
                     stop_crit_in = np.max(opt_ws)
                     if max(self.verbose - 1, 0):
+                        p_obj = (datafit.value(Y, W, XW)
+                                 + penalty.value(W[:n_features]))
                         print(f"Epoch {epoch + 1}, objective {p_obj:.10f}, "
                               f"stopping crit {stop_crit_in:.2e}")
                     if ws_size == n_features:
@@ -178,6 +178,7 @@ class MultiTaskBCD(BaseSolver):
                             if max(self.verbose - 1, 0):
                                 print("Early exit")
                             break
+            p_obj = datafit.value(Y, W, XW) + penalty.value(W[:n_features])
             obj_out.append(p_obj)
         return W, np.array(obj_out), stop_crit
 
